@@ -221,6 +221,14 @@ def run_family(ctx, pid):
     if not cases:
         ctx.save_debug(r, "gen.txt")
         raise vlib.Inconclusive("no cases generated: " + vlib.tail(r.out))
+    # a small catalogue with THREE hooks (Cfg8), model-checked and predicted on its own
+    ctx.model_check("EnvHooksMC", None, cfg_text="SPECIFICATION Spec\n" + consts(ctx, '{"h1", "h2", "h3"}', "Cfg8") +
+                    "INVARIANTS " + MODEL_INVS + "\nCHECK_DEADLOCK FALSE\n")
+    r3 = ctx.tlc("EnvHooksGen", None, workers=1, cfg_text="SPECIFICATION GenSpec\n" + consts(ctx, '{"h1", "h2", "h3"}', "Cfg8") +
+                 "INVARIANT PrintCase\nCHECK_DEADLOCK FALSE\n")
+    three = [json.loads(c[1]) for c in r3.records("CASE")]
+    if not three:
+        raise vlib.Inconclusive("no three-hook cases generated: " + vlib.tail(r3.out))
     rng.shuffle(cases)
     # requests from inside the core (catalogues Cfg6, Cfg7) form a family of their own
     def watched_stop(c):
@@ -350,6 +358,12 @@ def run_family(ctx, pid):
         sid += 1
         ntask += 1
         scenarios.append(scenario(sid, c, taskhook=("exit1", "early")))
+    # a critical and a non-critical call failing at one weight, a third hook at a later weight (each case several times: which
+    # of the two failures the core looks at last is a matter of map order)
+    for c in three:
+        for _k in range(4 if quick else 8):
+            sid += 1
+            scenarios.append(scenario(sid, c))
     # two hooks failing in one moment with the very same error text, one critical and one not
     nst = 0
     for c in [x for x in meet if all(h["fails"] for h in x["hooks"]) and len({h["crit"] for h in x["hooks"]}) == 2][:(40 if quick else 400)]:
